@@ -1,1 +1,18 @@
-import FeVerif.Basic.Bytes
+-- Root: every property theorem module (built by the setup command)
+import FeVerif.Props.C01
+import FeVerif.Props.C02
+import FeVerif.Props.C03
+import FeVerif.Props.C04
+import FeVerif.Props.C05
+import FeVerif.Props.C06
+import FeVerif.Props.C08
+import FeVerif.Props.C09
+import FeVerif.Props.C10
+import FeVerif.Props.C11
+import FeVerif.Props.C12
+import FeVerif.Props.C14
+import FeVerif.Props.C15
+import FeVerif.Props.C16
+import FeVerif.Props.C18
+import FeVerif.Props.C19
+import FeVerif.Props.C20
